@@ -153,15 +153,32 @@ def comment_chars(rng, n, allow_nl):
     out = []
     for _ in range(n):
         k = rng.random()
-        if k < 0.10:
-            out.append(rng.choice("*/"))
-        elif allow_nl and k < 0.12:
+        if k < 0.22:
+            out.append(rng.choice("*/"))          # '*' and '/' are ordinary comment content ...
+        elif allow_nl and k < 0.25:
             out.append(rng.choice(["\n", "\r\n"]))
-        elif k < 0.16:
+        elif k < 0.29:
             out.append("--")
+        elif k < 0.32:
+            out.append("\r")                      # a lone CR inside a comment: one more character of its line
         else:
             out.append(rng.choice(COMMENT_ALPHABET))
     return out
+
+
+def keep_content(flat):
+    """flat = [(char, is_delimiter_char)]: the class proved in Front/LexProofs.v (body_ok / cchar_ok): every
+    character is comment content, except that a content '*' directly in front of a '/' and a content '/'
+    directly in front of a '*' are not content but (read from left to right, as X.680 12.6.4 is) the delimiters
+    "*/" and "/*".  Only those two situations are rewritten; '**/', '/*/', '/***/', '//*', '*/*' all stay."""
+    out = []
+    for j, (ch, fixed) in enumerate(flat):
+        if not fixed and ch in "*/":
+            nxt = flat[j + 1][0] if j + 1 < len(flat) else ""
+            if (ch == "*" and nxt == "/") or (ch == "/" and nxt == "*"):
+                ch = "x"
+        out.append(ch)
+    return "".join(out)
 
 
 def block_comment(rng, depth, allow_nl):
@@ -173,26 +190,24 @@ def block_comment(rng, depth, allow_nl):
         else:
             parts += comment_chars(rng, rng.randrange(0, 6), allow_nl)
     parts.append("*/")
-    # a '*' or '/' that is comment *content* must not combine with a neighbour into a delimiter
     flat = []
-    for p in parts:
-        if p in ("/*", "*/"):
-            flat += [(p[0], True), (p[1], True)]
-        elif p.startswith("/*") and len(p) > 2:
-            flat += [(ch, True) for ch in p]          # nested comment already sanitised: leave untouched
+    for i, p in enumerate(parts):
+        if (p in ("/*", "*/") and i in (0, len(parts) - 1)) or (p.startswith("/*") and len(p) > 2):
+            flat += [(ch, True) for ch in p]          # the delimiters; a nested comment (already in the class)
         else:
             flat += [(ch, False) for ch in p]
-    out = []
-    for j, (ch, fixed) in enumerate(flat):
-        if not fixed and ch in "*/":
-            prev = out[-1] if out else ""
-            nxt = flat[j + 1][0] if j + 1 < len(flat) else ""
-            # '**/', '/***/' and '//*' are legal (a '*' before the closing delimiter, a '/' before a nested opener);
-            # only the pairs '/*' and '*/' would create or destroy a delimiter
-            if (prev == "/" and ch == "*") or (prev == "*" and ch == "/") or (ch == "/" and nxt == "*") or (ch == "*" and nxt == "/"):
-                ch = "x"
-        out.append(ch)
-    return "".join(out)
+    return keep_content(flat)
+
+
+def dd_body(rng):
+    """content c of a comment "--" c "--" (X.680 12.6.3): no line end, no "--" inside, and c + "--" must have
+    its first "--" at the end (so c does not end in '-')"""
+    body = "".join(rng.choice(COMMENT_ALPHABET + "*/") for _ in range(rng.randrange(0, 8)))
+    while "--" in body:
+        body = body.replace("--", "-x")
+    if body.endswith("-"):
+        body += rng.choice("x *")
+    return body
 
 
 def line_comment(rng):
@@ -202,7 +217,27 @@ def line_comment(rng):
         body = body.replace("--", "-x")
     if rng.random() < 0.15:
         body += rng.choice(["/*", "*/", "/* x */"])
-    return "--" + body + rng.choice(["\n", "\n", "\r\n"])
+    plain = "--" + body + rng.choice(["\n", "\n", "\r\n"])
+    if rng.random() < 0.7:
+        return plain
+    # "--" c "--": X.680 ends the comment at the second "--", the crate skips the rest of the line; the two
+    # readings coincide (and only then is the layout in the proved class) when the rest of the line holds
+    # nothing but blanks, further such comments and block comments without a line end, and the line is ended
+    # inside this gap (by a line end or by an ordinary line comment)
+    out = "--" + dd_body(rng) + "--"
+    for _ in range(rng.randrange(0, 4)):
+        k = rng.random()
+        if k < 0.35:
+            out += " "
+        elif k < 0.5:
+            out += "\t"
+        elif k < 0.6:
+            out += "\r"
+        elif k < 0.8:
+            out += "--" + dd_body(rng) + "--"
+        else:
+            out += block_comment(rng, rng.randrange(0, 3), False)
+    return out + rng.choice(["\n", "\r\n", plain])
 
 
 def gap_item(rng, kind, allow_nl=True):
@@ -218,6 +253,8 @@ def gap_item(rng, kind, allow_nl=True):
         return line_comment(rng)
     if kind == 5:
         return block_comment(rng, 0, allow_nl and rng.random() < 0.3)
+    if kind == 7:
+        return "\r"                               # a lone CR (a following LF item makes it CR LF): a blank
     return block_comment(rng, rng.randrange(1, 4), allow_nl and rng.random() < 0.3)
 
 
@@ -227,30 +264,64 @@ def flushes(item):
     return not item.startswith("/*") or "\n" in item
 
 
-def render(rng, toks, comment_only_ok, split_compound, dense):
-    """token-level printer: returns (text, [(offset, len)])"""
+def multi_line_block(rng):
+    """a balanced block comment (X.680 reading) that certainly contains a LF"""
+    flat = [("/", True), ("*", True)]
+    flat += [(ch, False) for p in comment_chars(rng, rng.randrange(0, 4), True) for ch in p]
+    flat += [("\n", False)]
+    flat += [(ch, False) for p in comment_chars(rng, rng.randrange(0, 4), True) for ch in p]
+    flat += [("*", True), ("/", True)]
+    return keep_content(flat)
+
+
+def hazard_gap(rng, kind):
+    """a gap (in X.680's reading) on which the crate is known NOT to be layout-invariant:
+    kind 'dd' (finding F13-1): a comment "--" c "--" followed on the same line by the next lexical item or by a
+                block comment that goes on in the next line (the crate skips the rest of the line);
+    kind 'cr' (finding F13-2): a comment "--" c ended by a lone CR, the next item before the next LF."""
+    pre = "".join(gap_item(rng, rng.choice([0, 1, 3, 4, 5, 7])) for _ in range(rng.randrange(0, 2)))
+    if kind == "dd":
+        out = pre + "--" + dd_body(rng) + "--"
+        for _ in range(rng.randrange(0, 3)):
+            k = rng.random()
+            out += " " if k < 0.4 else ("\t" if k < 0.55 else ("--" + dd_body(rng) + "--" if k < 0.8 else block_comment(rng, 0, False)))
+        if rng.random() < 0.3:
+            out += multi_line_block(rng) + rng.choice(["", " ", "\n"])
+        return out
+    body = "".join(rng.choice(COMMENT_ALPHABET + "*/") for _ in range(rng.randrange(0, 8)))
+    while "--" in body:
+        body = body.replace("--", "-x")
+    return pre + "--" + body + "\r" + "".join(rng.choice(" \t") for _ in range(rng.randrange(0, 3)))
+
+
+def render(rng, toks, comment_only_ok, split_compound, dense, hazard=None):
+    """token-level printer: returns (text, [(offset, len)]); hazard = None | 'dd' | 'cr': one boundary in front of a
+    token gets a hazard_gap (a layout OUTSIDE the proved class, inside the property's quantifier)"""
     text = []
     n = 0
     meta = []
+    hz = rng.randrange(0, len(toks)) if hazard and toks else -1
 
     def gap(between_texts, may_be_empty):
         r = rng.random()
         if may_be_empty and r < (0.5 if dense else 0.25):
             return ""
         k = 1 if r < 0.7 else (2 if r < 0.9 else 3)
-        items = [gap_item(rng, rng.choice([0, 0, 0, 1, 2, 3, 3, 4, 5, 6])) for _ in range(k)]
+        items = [gap_item(rng, rng.choice([0, 0, 0, 1, 2, 3, 3, 4, 4, 5, 5, 6, 6, 7])) for _ in range(k)]
         if between_texts and not comment_only_ok and not any(flushes(it) for it in items):
-            items.insert(rng.randrange(0, len(items) + 1), gap_item(rng, rng.choice([0, 1, 2, 3, 4])))
+            items.insert(rng.randrange(0, len(items) + 1), gap_item(rng, rng.choice([0, 1, 2, 3, 4, 7])))
         return "".join(items)
 
-    g = gap(False, True)
+    g = hazard_gap(rng, hazard) if hz == 0 else gap(False, True)
     text.append(g)
     n += len(g)
     for i, t in enumerate(toks):
         meta.append((n, len(t)))
         text.append(t)
         n += len(t)
-        if i + 1 < len(toks):
+        if i + 1 == hz:
+            g = hazard_gap(rng, hazard)
+        elif i + 1 < len(toks):
             both_text = not is_sep(t) and not is_sep(toks[i + 1])
             if glued(toks, i) and not split_compound:
                 g = ""
@@ -296,6 +367,118 @@ def position(text, off):
     return line, off - last          # last = -1 when on the first line: column = off + 1
 
 
+def is_control(ch):
+    return ord(ch) < 32 or 127 <= ord(ch) < 160
+
+
+def ref_lex(text, dd_closes, cr_ends):
+    """clause-12 lexer over this check's notion of items (separator characters; runs of other visible characters),
+    used ONLY to name a failure.  dd_closes: a "--" comment ends at the next "--" (X.680 12.6.3) / runs to the line
+    end; cr_ends: a lone CR is a line end for a "--" comment (X.680 12.1.6) / is not.  (True, True) is X.680.
+    -> (tokens [(kind, line, col, str)], events) or None; events = closes 'dd'/'cr' (offset behind the comment),
+    'tok' (offset), 'blk' (start, end)"""
+    toks, ev = [], []
+    cur = None
+    i, n = 0, len(text)
+
+    def flush():
+        nonlocal cur
+        if cur is not None:
+            toks.append((0,) + position(text, cur[0]) + (cur[1],))
+            cur = None
+
+    while i < n:
+        ch = text[i]
+        if text.startswith("--", i):
+            flush()
+            j = i + 2
+            while j < n and text[j] != "\n":
+                if text[j] == "\r" and not text.startswith("\r\n", j) and cr_ends:
+                    ev.append(("cr", j))
+                    break
+                if dd_closes and text.startswith("--", j):
+                    j += 2
+                    ev.append(("dd", j))
+                    break
+                j += 1
+            i = j
+        elif text.startswith("/*", i):
+            flush()
+            depth, j = 1, i + 2
+            while depth > 0:
+                if j >= n:
+                    return None
+                if text.startswith("*/", j):
+                    depth -= 1
+                    j += 2
+                elif text.startswith("/*", j):
+                    depth += 1
+                    j += 2
+                else:
+                    j += 1
+            ev.append(("blk", i, j))
+            i = j
+        elif ch in SEPARATORS:
+            flush()
+            ev.append(("tok", i))
+            toks.append((1,) + position(text, i) + (ch,))
+            i += 1
+        elif ch in " \t\r\n":
+            flush()
+            i += 1
+        elif is_control(ch):
+            return None
+        else:
+            if cur is None:
+                cur = [i, ""]
+                ev.append(("tok", i))
+            cur[1] += ch
+            i += 1
+    flush()
+    return toks, ev
+
+
+def deviation_present(text, ev, kind):
+    """behind a comment closed by the second "--" (kind 'dd') / by a lone CR (kind 'cr') and before the next LF
+    there is a lexical item or the beginning of a block comment that goes on behind that LF"""
+    for e in ev:
+        if e[0] != kind:
+            continue
+        lf = text.find("\n", e[1])
+        lf = len(text) if lf < 0 else lf
+        for f in ev:
+            if f[0] == "tok" and e[1] <= f[1] < lf:
+                return True
+            if f[0] == "blk" and e[1] <= f[1] < lf < f[2]:
+                return True
+    return False
+
+
+DD_CLASS = "dashdash_does_not_close_line_comment"
+CR_CLASS = "lone_cr_does_not_end_line_comment"
+DD_TEXT = "the comment \"--\" c \"--\" is not ended by its second \"--\": the rest of the line (an item, or the start of a block comment) is skipped"
+CR_TEXT = "a lone CR does not end a \"--\" comment: the items between it and the next LF are skipped"
+
+
+def known_deviation(text, expected, got):
+    """name the failure if it is exactly finding F13-1 and/or F13-2: the layout is well formed in X.680's reading,
+    shows the situation (F13-1: a comment closed by its second "--", F13-2: a "--" comment closed by a lone CR, in
+    both cases with an item or the start of a multi-line block comment before the next LF), and the crate's answer
+    is precisely the 'every "--" comment runs to the LF' reading.  Both situations in one layout: both classes."""
+    x = ref_lex(text, True, True)
+    if x is None or x[0] != expected:
+        return None
+    c = ref_lex(text, False, False)
+    if c is None or c[0] != got:
+        return None
+    res = []
+    if deviation_present(text, x[1], "dd"):
+        res.append((DD_CLASS, DD_TEXT))
+    if deviation_present(text, x[1], "cr"):
+        res.append((CR_CLASS, CR_TEXT))
+    return None if not res else (res[0] if len(res) == 1 else res)
+
+
 def decode_out(o):
     """'0 n (kind line col len codes..)*' -> [(kind, line, col, str)]"""
     toks = []
@@ -315,33 +498,79 @@ def decode_out(o):
 BODY_ALPHABET = "abcxyzAZ09 _,;:=(){}[].'\"<>|&!@-\t" + "é中"
 
 
-def s_body(rng, depth):
+def s_body_raw(rng, depth, allow_nl):
     out = []
-    for _ in range(rng.randrange(0, 5)):
+    for _ in range(rng.randrange(0, 6)):
         k = rng.random()
         if k < 0.12:
-            out.append(rng.choice([-1, -2]))
+            out.append(rng.choice([-1, -2]) if allow_nl else 32)
         elif k < 0.3 and depth > 0:
-            out += [-3] + s_body(rng, depth - 1) + [-4]
+            out += [-3] + s_body_raw(rng, depth - 1, allow_nl) + [-4]
+        elif k < 0.55:
+            out.append(ord(rng.choice("*/")))
+        elif k < 0.6:
+            out.append(13)
         else:
             out.append(ord(rng.choice(BODY_ALPHABET)))
     return out
 
 
+FIRST_CHAR = {-1: 10, -2: 13, -3: 47, -4: 42}
+
+
+def s_body(rng, depth, allow_nl=True):
+    """a body inside LexProofs.body_ok: any content, but a content '*' is not directly followed by '/' and a
+    content '/' not directly followed by '*' (next = first character of the next item, or the '*' of the final "*/")"""
+    b = s_body_raw(rng, depth, allow_nl)
+    for j, c in enumerate(b):
+        nxt = 42 if j + 1 == len(b) else FIRST_CHAR.get(b[j + 1], b[j + 1])
+        if (c == 42 and nxt == 47) or (c == 47 and nxt == 42):
+            b[j] = 120
+    return b
+
+
+def s_dd(rng):
+    c = dd_body(rng)
+    return (-28,) + tuple(ord(ch) for ch in c)
+
+
+def s_line(rng):
+    body = [ord(rng.choice(BODY_ALPHABET + "*/")) for _ in range(rng.randrange(0, 8))]
+    return (rng.choice([-24, -24, -26]),) + tuple(body)
+
+
 def s_item(rng):
-    k = rng.choice([0, 0, 0, 1, 2, 3, 3, 4, 5, 6])
+    """-> a list of gap items (one, except for a "--" c "--" comment, which brings the rest of its line)"""
+    k = rng.choice([0, 0, 0, 1, 2, 3, 3, 4, 4, 5, 5, 6, 6, 7, 8])
     if k == 0:
-        return (-20,)
+        return [(-20,)]
     if k == 1:
-        return (-21,)
+        return [(-21,)]
     if k == 2:
-        return (-22,)
+        return [(-22,)]
     if k == 3:
-        return (-23,)
+        return [(-23,)]
     if k == 4:
-        body = [ord(rng.choice(BODY_ALPHABET + "*/")) for _ in range(rng.randrange(0, 8))]
-        return (rng.choice([-24, -24, -26]),) + tuple(body)
-    return (-25,) + tuple(s_body(rng, 0 if k == 5 else rng.randrange(1, 4)))
+        return [s_line(rng)]
+    if k == 7:
+        return [(-27,)]
+    if k == 8:
+        out = [s_dd(rng)]
+        for _ in range(rng.randrange(0, 4)):
+            j = rng.random()
+            if j < 0.35:
+                out.append((-20,))
+            elif j < 0.5:
+                out.append((-21,))
+            elif j < 0.6:
+                out.append((-27,))
+            elif j < 0.8:
+                out.append(s_dd(rng))
+            else:
+                out.append((-25,) + tuple(s_body(rng, rng.randrange(0, 3), allow_nl=False)))
+        out.append(rng.choice([(-22,), (-23,), s_line(rng)]))
+        return out
+    return [(-25,) + tuple(s_body(rng, 0 if k == 5 else rng.randrange(1, 4)))]
 
 
 def s_item_text(it):
@@ -350,6 +579,10 @@ def s_item_text(it):
         return {-20: " ", -21: "\t", -22: "\r\n", -23: "\n"}[k]
     if k in (-24, -26):
         return "--" + "".join(chr(c) for c in it[1:]) + ("\n" if k == -24 else "\r\n")
+    if k == -27:
+        return "\r"
+    if k == -28:
+        return "--" + "".join(chr(c) for c in it[1:]) + "--"
     m = {-1: "\n", -2: "\r\n", -3: "/*", -4: "*/"}
     return "/*" + "".join(m[c] if c < 0 else chr(c) for c in it[1:]) + "*/"
 
@@ -370,9 +603,9 @@ def s_layout(rng, toks, comment_only_ok):
         r = rng.random()
         items = []
         if not (r < 0.3 and not between_texts):
-            items = [s_item(rng) for _ in range(1 if r < 0.7 else (2 if r < 0.9 else 3))]
+            items = [it for _ in range(1 if r < 0.7 else (2 if r < 0.9 else 3)) for it in s_item(rng)]
             if between_texts and not comment_only_ok and not any(s_item_flushes(i) for i in items):
-                items.insert(rng.randrange(0, len(items) + 1), (rng.choice([-20, -21, -22, -23]),))
+                items.insert(rng.choice([0, len(items)]), (rng.choice([-20, -21, -22, -23, -27]),))
         if between_texts and items and not any(s_item_flushes(i) for i in items):
             known = True
         for it in items:
@@ -402,17 +635,25 @@ class C13(Spec):
     coq_targets = ["Props/C13.vo"]
     prop_module = "Props.C13"
     theorems = ["C13_tokenize", "C13_layout_invariant", "C13_locations", "C13_positions_intrinsic",
-                "C13_fixed_block_comment_gap"]
+                "C13_fixed_block_comment_gap", "C13_nonvacuous", "C13_nonvacuous_star_slash_dashdash_cr",
+                "C13_refuted_dashdash_closes_line_comment", "C13_refuted_cr_ends_line_comment",
+                "C13_refuted_vt_ff_white_space", "C13_lone_cr_is_a_blank"]
     xcheck_n = 100
     builds = [("default", "dev"), ("default", "release")]
     level_text = ("Theorems about a hand-written Gallina model of Tokenizer::parse / Token::append / str::lines: for every "
-                  "token list and every lex_safe layout (gaps from space, tab, CRLF, LF, line comments, possibly nested and "
-                  "multi-line block comments), the token contents equal the printed list and every "
+                  "token list and every lex_safe layout (gaps from space, tab, CRLF, LF, lone CR, line comments ended by a line end "
+                  "or -- with a comment-only rest of the line -- by a second '--', possibly nested and multi-line block "
+                  "comments whose content is any character, '*', '/' and CR included), the token contents equal the printed list and every "
                   "location is the line/column where the item starts; the model is tied to the crate by differential "
                   "execution on both profiles, and the property is evaluated on the crate's answers by an independent oracle.")
     rule = ("token-level printer over 17 token lists (ASN.1 modules: SEQUENCE/CHOICE/ENUMERATED/INTEGER ranges/SIZE/tags/DEFAULT/"
             "IMPORTS/OIDs/value assignments/odd items) choosing at every token boundary a gap of 0-3 items from {space, tab, CRLF, LF, "
-            "'-- c LF|CRLF', '/* c */' (optionally multi-line), nested block comments up to depth 4}; empty gaps only next to a separator; "
+            "lone CR, '-- c LF|CRLF', '-- c --' followed by blanks/comments up to the line end, '/* c */' (optionally multi-line, "
+            "c with '*', '/', '--', lone CR as content: everything that does not read as a delimiter from left to right), "
+            "nested block comments up to depth 4}; empty gaps only next to a separator; 4% + 4% of the layouts put one "
+            "'-- c --' comment directly in front of an item / a multi-line block comment on the same line, or end one '--' comment "
+            "by a lone CR (known findings F13-1, F13-2: named by the oracle only when the crate's answer is exactly the "
+            "'comment runs to the LF' reading); "
             "half of the layouts may separate two text items by block comments only; 1 000 (thorough 20 000) further layouts "
             "drawn inside the domain of the Coq theorems are in addition rendered and positioned by the Coq specification itself "
             "(model-only op 3003) and compared with the printer; plus a malformed stream "
@@ -446,7 +687,16 @@ class C13(Spec):
         # the witness of the repaired defect (58b7ab0) and its neighbours first
         for txt, toks in (("SEQUENCE/* c */OF", ["SEQUENCE", "OF"]), ("SEQUENCE /* c */OF", ["SEQUENCE", "OF"]),
                           ("SEQUENCE/* c\n */OF", ["SEQUENCE", "OF"]), ("a/**/b", ["a", "b"]), ("a/* /* */ */b", ["a", "b"]),
-                          (",/* c */OF", [",", "OF"]), ("OF/* c */,", ["OF", ","])):
+                          (",/* c */OF", [",", "OF"]), ("OF/* c */,", ["OF", ","]),
+                          # '*' and '/' as comment content; "/*/" opens and has content '/'; "/**/" is empty
+                          ("P/* a * b / c **/Q", ["P", "Q"]), ("P/*/ x */Q", ["P", "Q"]), ("P/***/Q/** doc **/R", ["P", "Q", "R"]),
+                          ("P/*/**/*/Q", ["P", "Q"]), ("P/* //* x */* */Q", ["P", "Q"]), ("P/*\r*\r\n/\r*/Q", ["P", "Q"]),
+                          # "--" c "--" with a comment-only rest of the line; lone CR as a blank
+                          ("P -- c -- \nQ", ["P", "Q"]), ("P-- c ---- d --/* x */\t-- e\r\nQ", ["P", "Q"]), ("P\rQ\r\rR\r", ["P", "Q", "R"]),
+                          ("P--c--\r\nQ", ["P", "Q"]),
+                          # known findings F13-1 ("--" c "--" does not end the comment) and F13-2 (nor does a lone CR)
+                          ("P -- c -- Q", ["P", "Q"]), ("P -- c -- /* x\n y */ Q", ["P", "Q"]), ("P,-- a ---- b --Q\nR", ["P", ",", "Q", "R"]),
+                          ("P -- c\rQ\n", ["P", "Q"]), ("P --\r,Q\nR", ["P", ",", "Q", "R"])):
             meta = []
             at = 0
             for t in toks:
@@ -459,8 +709,19 @@ class C13(Spec):
             if rng.random() < 0.3 and len(toks) > 6:
                 a = rng.randrange(0, len(toks) - 3)
                 toks = toks[a:a + rng.randrange(2, 12)]
-            text, meta = render(rng, toks, comment_only_ok=rng.random() < 0.5,
-                                split_compound=rng.random() < 0.5, dense=rng.random() < 0.3)
+            hz = rng.random()        # 4% + 4% of the layouts carry one of the two known deviations (F13-1, F13-2)
+            hazard = "dd" if hz < 0.04 else ("cr" if hz < 0.08 else None)
+            for attempt in range(6):
+                text, meta = render(rng, toks, comment_only_ok=rng.random() < 0.5,
+                                    split_compound=rng.random() < 0.5, dense=rng.random() < 0.3,
+                                    hazard=hazard if attempt < 5 else None)
+                # keep the two families narrow: when the crate skips the rest of such a line, what is left of a
+                # multi-line block comment ("... */" on the next line) can pair up to a "/*" that is never closed
+                # (e.g. "*/*/"): the answer is then the unclosed-comment panic or a silently swallowed rest --
+                # a consequence of the same deviation, but not the plain 'comment runs to the LF' token list that
+                # the oracle names.  Such draws are replaced.
+                if hazard is None or attempt == 5 or ref_lex(text, False, False) is not None:
+                    break
             out.append(case_3002(text, meta))
         for _ in range(n_mal):
             k = rng.random()
@@ -504,6 +765,9 @@ class C13(Spec):
         got = decode_out(o)
         if got == expected:
             return None
+        kd = known_deviation(text, expected, got)
+        if kd is not None:
+            return kd
         # name the failure: text items separated by block comments only glued into one token
         # (the defect repaired by 58b7ab0; not a listed finding -- an ordinary violation)
         merged = []
